@@ -19,7 +19,7 @@ Mirrors the **current** code (after the fixes 97e2cea: backspace writes a NUL; 8
 * `fault` is set by anything that would leave the scratch union (a string without terminator inside
   it, a write beyond it, a NULL table entry dereferenced, `assert(0)`): C15 proves it stays `false`;
 * `wlog` is a ghost log of the offsets of all single-byte writes (not the `memset` of `do_prompt`),
-  `lines` a ghost log of the texts handed to `do_tokenize`, `eaten` of the characters taken out of the ring; `stuck` is set when a fuel-bounded loop
+  `lines` a ghost log of the texts handed to `do_tokenize`, `eaten` of the characters taken out of the ring, `ran` of the commands started with the argument strings they see; `stuck` is set when a fuel-bounded loop
   of the model runs out of fuel (C15 proves the fuel suffices).
 -/
 namespace Librfn.Model.Console
@@ -83,13 +83,14 @@ structure St where
   wlog : List Nat                 -- ghost: offsets of all single-byte stores into the scratch union
   lines : List (List Byte)        -- ghost: the text of every line handed to do_tokenize
   eaten : List Byte               -- ghost: every character console_run has taken out of the ring
+  ran : List (Option Cmd × List (List Byte))   -- ghost: every command started (PT_SPAWN) with the argv[0..argc-1] strings it sees
   deriving Repr
 
 /-- `console_init` (memset 0, ring initialised, fibre made runnable) -/
 def init : St :=
   { ring := [], mem := List.replicate scratchSize 0, bufp := 0, argc := 0,
     argv := List.replicate argvLen none, cmd := none, fpt := 0, pt := 0, evali := 0, runnable := true,
-    hlock := false, hidx := 0, out := [], caps := [], fault := false, stuck := false, wlog := [], lines := [], eaten := [] }
+    hlock := false, hidx := 0, out := [], caps := [], fault := false, stuck := false, wlog := [], lines := [], eaten := [], ran := [] }
 
 def St.print (s : St) (t : String) : St := { s with out := s.out ++ bytes t }
 def St.printBytes (s : St) (t : List Byte) : St := { s with out := s.out ++ t }
@@ -201,13 +202,21 @@ def findLoop (arg0 : List Byte) : Table → Option Cmd
     | none => some c
     | some n => if arg0 = n then some c else findLoop arg0 rest
 
+/-- the strings `argv[0] .. argv[argc-1]` as a command reads them -/
+def argStrings (s : St) : List (List Byte) :=
+  (List.range s.argc).map fun i => match s.argv.getD i none with
+    | some o => cstr s.mem o
+    | none => []
+
+/-- `find_command`; it is called exactly once per completed line, immediately before the command is
+    spawned, so the ghost log `ran` is written here -/
 def findCommand (tab : Table) (s : St) : St :=
   match s.argv.getD 0 none with
   | none => { s with fault := true }
   | some a0 =>
     match findLoop (cstr s.mem a0) tab with
     | none => { s with fault := true }
-    | some c => { s with cmd := some c }
+    | some c => { s with cmd := some c, ran := s.ran ++ [(some c, argStrings s)] }
 
 /-- first `i` with `cmd_table[i]->name == NULL || strcmp(cmd_table[i]->name, name) > 0`;
     `none` = NULL dereferenced; an index `= tab.length` = the loop ran off the array -/
